@@ -431,6 +431,24 @@ impl<'a, H: HK> Runner<'a, H> {
         })
     }
 
+    /// Like `new`, but on an existing (already created, empty) store directory.
+    pub fn with_dir(hist: &'a History, obs: &'a Obs, dir: PathBuf, budget: usize) -> Result<Self, Violation> {
+        let db = Db::<H>::open(&dir, &hist.cfg).map_err(|f| viol(0, f.sig()))?;
+        Ok(Runner {
+            hist,
+            obs,
+            dir,
+            db: Some(db),
+            model: Model::new(H::KIND, hist.cfg.rollback, hist.cfg.max_log as usize),
+            cfg: hist.cfg.clone(),
+            info: CaseInfo::default(),
+            budget: Budget { left: budget },
+            ver: 1,
+            commits: 0,
+            clamp_rollback: false,
+        })
+    }
+
     pub fn db(&self) -> &Db<H> {
         self.db.as_ref().unwrap()
     }
